@@ -38,7 +38,8 @@ func (br *bitrate) Set(bitrate uint64, now uint64) {
 
 func (br *bitrate) Get(now uint64) uint64 {
 	ts := atomic.LoadUint64(&br.jiffies)
-	if now < ts || now-ts > receiverReportTimeout {
+	// ts is 0 if the bitrate has never been set
+	if ts == 0 || now < ts || now-ts > receiverReportTimeout {
 		return ^uint64(0)
 	}
 	return atomic.LoadUint64(&br.bitrate)
